@@ -10,9 +10,9 @@ mkdir -p "$OUT"
 cp "$MDIR/patch.diff" "$OUT/patch.diff"; cp "$MDIR/demo.py" "$OUT/demo.py"; [ -f "$MDIR/README.md" ] && cp "$MDIR/README.md" "$OUT/README.md"
 git -C /repo worktree remove --force "$WT" 2>/dev/null
 git -C /repo worktree add -q --detach "$WT" HEAD || exit 2
-( cd "$WT" && /venv/bin/python "$OUT/demo.py" "$WT" >/dev/null 2>&1 ); CLEAN=$?
+( cd "$WT" && /verif/.venv/bin/python "$OUT/demo.py" "$WT" >/dev/null 2>&1 ); CLEAN=$?
 ( cd "$WT" && git apply "$OUT/patch.diff" ) || { echo "patch does not apply"; git -C /repo worktree remove --force "$WT"; exit 2; }
-( cd "$WT" && /venv/bin/python "$OUT/demo.py" "$WT" >/dev/null 2>&1 ); MUT=$?
+( cd "$WT" && /verif/.venv/bin/python "$OUT/demo.py" "$WT" >/dev/null 2>&1 ); MUT=$?
 TESTS="skipped"
 if [ "${RUN_TESTS:-1}" = "1" ]; then
   ( cd "$WT" && /venv/bin/python -m pytest -q -p no:cacheprovider --timeout=900 --continue-on-collection-errors --junitxml=/tmp/mv_$NAME.junit.xml >/dev/null 2>&1 )
